@@ -1,0 +1,35 @@
+// Copyright 2022 ByteDance and its affiliates.
+//
+// Licensed under the Apache License, Version 2.0 (the "License");
+// you may not use this file except in compliance with the License.
+// You may obtain a copy of the License at
+//
+//      http://www.apache.org/licenses/LICENSE-2.0
+//
+// Unless required by applicable law or agreed to in writing, software
+// distributed under the License is distributed on an "AS IS" BASIS,
+// WITHOUT WARRANTIES OR CONDITIONS OF ANY KIND, either express or implied.
+// See the License for the specific language governing permissions and
+// limitations under the License.
+
+//go:build verif
+// +build verif
+
+package app
+
+import (
+	"net/http"
+
+	genericapiserver "k8s.io/apiserver/pkg/server"
+
+	"github.com/kubewharf/kubegateway/pkg/clusters"
+)
+
+// VerifBuildProxyHandlerChain exposes the shipped proxy handler chain builder
+// to the simulation harness (only compiled with -tags verif).
+func VerifBuildProxyHandlerChain(m clusters.Manager, enableAccessLog bool) func(http.Handler, *genericapiserver.Config) http.Handler {
+	return buildProxyHandlerChainFunc(&proxyHandlerOptions{
+		clusterManager:  m,
+		enableAccessLog: enableAccessLog,
+	})
+}
